@@ -220,6 +220,39 @@ pub fn underlying_source(
 /// in (the invariant prefix of the glob) is not an ancestor on the walked path; whether it counts
 /// as "one of its ancestors" is ambiguous, so such draws are not sampled.
 /// (`Glob::partition` decides what to sample, never what to judge.)
+/// Narrower than `cycle_above_prefix`: `true` if some link of the tree points at a directory that
+/// lies on the way from where the model starts (the base) down to where the walk really starts
+/// (the base joined with the glob's invariant prefix), the latter excluded. Only those directories
+/// are on the model's stack of ancestors without being on the walk's.
+pub fn link_into_prefix_path(model: &Model, tree: &[Node], w: &Walker) -> bool {
+    let Source::Glob { expr, rooted } = &w.source
+    else {
+        return false;
+    };
+    let text = glob_text(expr, *rooted, DUMMY_ROOT);
+    let Ok(glob) = wax::Glob::new(&text)
+    else {
+        return true;
+    };
+    let (prefix, _) = glob.partition();
+    let prefix = prefix.to_string_lossy().into_owned();
+    let start: Option<String> = if *rooted {
+        prefix.strip_prefix(DUMMY_ROOT).map(|r| r.trim_matches('/').to_string())
+    }
+    else {
+        crate::exec::to_world(&format!("{}/{}/{}", R, w.base, prefix), "")
+    };
+    let Some(start) = start
+    else {
+        return true;
+    };
+    let space = Space::of(w, DUMMY_ROOT);
+    tree.iter().filter(|n| matches!(n.kind, Kind::Link { .. })).any(|n| match model.resolve(&n.path, true) {
+        Ok(t) => t != start && is_under(&start, &t) && is_under(&t, &space.start),
+        Err(_) => false,
+    })
+}
+
 pub fn cycle_above_prefix(model: &Model, w: &Walker) -> bool {
     let Source::Glob { expr, rooted } = &w.source
     else {
